@@ -138,13 +138,14 @@ def check_c17_tree(root, engine, counters=None):
 
 
 def effectively_sorted_without_slice(rel) -> bool:
-    """A Select that carries a sort and no slice, possibly wrapped in slot-less Selects."""
+    """A Select that carries a sort and no slice, possibly wrapped in Selects that apply no
+    operation of their own (target is skip_to)."""
     while isinstance(rel, Rsql.Select):
         if rel.has_slice:
             return False
         if rel.has_sort:
             return True
-        if rel.has_projection or rel.has_deduplication:
+        if rel.target is not rel.skip_to:
             return False
         rel = rel.skip_to
     return False
